@@ -696,7 +696,7 @@ PROPS = {
     ),
     "C16": dict(
         module="YkProps.C16",
-        leancheck=["YkModel.Reload", "YkProofs.Reload", "YkProps.C16"],
+        leancheck=["YkModel.Reload", "YkProofs.Reload", "YkProofs.ReloadMark", "YkProofs.ReloadParts", "YkProps.C16"],
         runs=[dict(comp="reload", quick=6400, thorough=160000)],
         classify=cls_c16,
         nontrivial=lambda line: '"op":"reset"' not in line,
@@ -715,18 +715,18 @@ PROPS = {
                  "queue names are ASCII; one RM; a reload that drops a partition is not modelled (it does not return: clause C16.P1, corpus witness)",
                  "quota preemption start times, metrics and events are not observed"],
         assumptions=["configuration lists are well-formed (confWF: distinct paths, parent entries of parent type first) — what flattening a validated configuration tree in pre-order gives; the driver checks it on every line",
-                     "tree invariant used by the marking model: a queue below an unmanaged queue is unmanaged (checked on every dumped tree, clause C16.W0)"],
+                     "tree well-formedness used by the marking theorems (parents first and present, distinct non-empty paths, W0 = nothing managed below an unmanaged queue, parents named by path): proved invariant for every modelled operation (w0_reachable) and checked on every dumped tree (clauses C16.W0/W1/W2)"],
         level_text="Lean 4 proofs over the executable model of processRMConfigUpdateEvent / updateSchedulerConfig / updatePartitionDetails / updateQueues / applyConf / NewConfiguredQueue / cleanQueues for ALL queue trees and ALL configuration lists: "
                    "the dry run is a sufficient guard (a fresh load that goes through means the update walk goes through on every tree: no error exit after the first change), so a single-partition update answered with an error changed nothing "
                    "(the unrestricted clause is machine-checked to FAIL for two partitions: known finding A1); validator refusals and the identical text are no-ops; whatever the walk does, every queue keeps its allocated / pending / preempting totals, "
                    "applications, reservations and counters and new queues start empty; after an accepted update every configured queue is present, managed, active (reactivated) and of the configured type, every other managed queue is no longer active, "
                    "dynamic queues are untouched; REFINEMENT: every configured queue carries the configuration-derived fields (limits, effective properties incl. inherited ones and what is derived from them, child template) of a FRESH load of the same configuration, "
                    "inherited child templates and the maxapplications of the top queue included, proved at full strength for every configuration without a queue NAMED root below the top queue, under an explicit hypothesis otherwise and machine-checked to FAIL without it (resources of a queue named root: known finding L2); the fresh load carries exactly what each entry says, inheritance key by key (own value, else the filtered parent value); "
-                   "the queue cleaner only removes, and only queues without applications that are draining or dynamic and have no child left; a draining queue (or a queue to be created below one) takes no application; marking queues for removal does not change what any parent offers to the scheduling cycle (the sortQueues filter: not stopped, pending > 0), a draining child with pending resources is offered. "
+                   "the queue cleaner only removes, and only queues without applications that are draining or dynamic and have no child left; a draining queue (or a queue to be created below one) takes no application; the MarkQueueForRemoval walk as the code performs it equals the characterisation the other theorems use, well-formedness (incl. W0) is an invariant of every modelled operation, a dropped hierarchy of any depth is Draining at every managed level; several partitions: every partition the loop gets through is updated exactly as it would be alone, a refused update leaves exactly the result of the partitions before the refused one (the refused one and all later ones untouched), partitions not named are untouched; marking queues for removal does not change what any parent offers to the scheduling cycle (the sortQueues filter: not stopped, pending > 0), a draining child with pending resources is offered. "
                    "Monitor (no theorem): clause K1 — a starved probe ask in a draining leaf or below a draining queue while the control group in active leaves is served. "
                    "Tie: one-step differential correspondence of the model against a real ClusterContext (answer and complete queue tree after every update / cleaner run / submission), the model's fresh load against the real dry-run partition, "
                    "and the same clauses evaluated on the implementation's dumps.",
-        level_note="trusted: Lean kernel; hand-written reload model tied by correspondence only; parsers and validator as oracles; ACLs and user/group limits outside the modelled state; the recursive MarkQueueForRemoval walk is modelled by its characterisation under a tree invariant checked at run time",
+        level_note="trusted: Lean kernel; hand-written reload model tied by correspondence only; parsers and validator as oracles; ACLs and user/group limits outside the modelled state; the recursive MarkQueueForRemoval walk is modelled as such (markRec), proved equal to its characterisation on every well-formed tree and run against the implementation on every accepted update",
         technique="Lean 4 proof over an executable model of the reload path (refinement against the fresh load) + one-step differential correspondence on a real ClusterContext",
         design_ref="DESIGN.md section 4 C16",
     ),
